@@ -56,6 +56,18 @@ func (c *vCtl) yield(kind string) {
 	<-c.resume[g]
 }
 
+// the stored form of a value, written here independently of the library's escapeEndChars: every line that is exactly
+// the terminator becomes the escape token
+func vEscapeIndependent(v string) string {
+	ls := strings.Split(v, "\n")
+	for i, l := range ls {
+		if l == "---" {
+			ls[i] = "/-/-/-/"
+		}
+	}
+	return strings.Join(ls, "\n")
+}
+
 type vSchedCall struct {
 	g     int
 	test  string
@@ -220,11 +232,13 @@ func init() {
 		}
 		hasFile := o.Path != "~"
 		initial := vunhex(o.Content)
-		create, update := shouldCreate(nil), shouldUpdate(nil)
+		// the mode the calls run under, decided here from the case's environment (NOT by the library's shouldCreate /
+		// shouldUpdate): off CI new snapshots may be created; rewriting needs UPDATE_SNAPS=true
+		create, update := !isCI, !isCI && updateVAR == "true"
 		ord := map[string]int{}
 		for _, c := range calls {
 			ord[c.test]++ // each goroutine runs ONE execution of its own test: the k-th call addresses [test - k]
-			callS = append(callS, fmt.Sprintf("%d:%s:%s:~:%s:%s", c.g, vhex([]byte(fmt.Sprintf("[%s - %d]", c.test, ord[c.test]))), vhex([]byte(escapeEndChars(c.value))), vb(create), vb(update)))
+			callS = append(callS, fmt.Sprintf("%d:%s:%s:~:%s:%s", c.g, vhex([]byte(fmt.Sprintf("[%s - %d]", c.test, ord[c.test]))), vhex([]byte(vEscapeIndependent(c.value))), vb(create), vb(update)))
 		}
 		max := o.Count
 		if max <= 0 {
